@@ -1196,6 +1196,15 @@ class _Ctx:
                         break
                 if not given:
                     return self.call_value(("attr", args[0], hit[0]), pos, {})
+        # operator.add(a, b) is a + b
+        if is_t(f, "global") and f[1].startswith("operator.") and not kwargs and not any(is_t(x, "star") for x in args):
+            opn = f[1].split(".", 1)[1]
+            if opn in _OPERATOR_BIN and len(args) == 2:
+                return mk_bin(_OPERATOR_BIN[opn], args[0], args[1])
+            if opn in _OPERATOR_CMP and len(args) == 2:
+                return mk_cmp(_OPERATOR_CMP[opn], args[0], args[1])
+            if opn in ("neg", "not_", "invert") and len(args) == 1:
+                return ("un", {"neg": "-", "not_": "not", "invert": "~"}[opn], args[0])
         # functools.partial(g, a, b)(c) is g(a, b, c)
         if is_t(f, "partial"):
             return self.call_value(f[1], list(f[2]) + list(args), {**dict(f[3]), **kwargs})
@@ -1495,6 +1504,10 @@ _OPS = {ast.Add: "+", ast.Sub: "-", ast.Mult: "*", ast.Div: "/", ast.Mod: "%", a
         ast.BitXor: "^", ast.FloorDiv: "//", ast.MatMult: "@", ast.LShift: "<<", ast.RShift: ">>"}
 _CMP = {ast.Eq: "==", ast.NotEq: "!=", ast.Lt: "<", ast.LtE: "<=", ast.Gt: ">", ast.GtE: ">=", ast.Is: "is", ast.IsNot: "is not",
         ast.In: "in", ast.NotIn: "not in"}
+
+_OPERATOR_BIN = {"add": "+", "sub": "-", "mul": "*", "truediv": "/", "floordiv": "//", "mod": "%", "pow": "**", "matmul": "@", "and_": "&", "or_": "|", "xor": "^",
+                 "lshift": "<<", "rshift": ">>"}
+_OPERATOR_CMP = {"eq": "==", "ne": "!=", "lt": "<", "le": "<=", "gt": ">", "ge": ">="}
 
 # exact_density(...) builds `type(name, (ExactDensity,), {sample, logpdf, handle_kwargs})` at run time
 _DYNAMIC_OVERRIDES = {("ExactDensity", "sample"), ("ExactDensity", "logpdf"), ("ExactDensity", "handle_kwargs"),
